@@ -28,6 +28,7 @@ META = {
 META["claim"] += " " + 'Also: every sequencing history again with per-fragment delivery and with validation off; a quarter of the header space with trace logging switched on.'
 META["claim"] += " " + 'Round 4: sequencing after a message rejected for its payload (continuation forbidden, new data frame legal); long close reasons with a multi-byte sequence split around whole 2^n-byte ASCII blocks; ambient conditions drawn per connection.'
 META["claim"] += " " + "Round 5: close frames also with per-fragment delivery on; sequencing after the client's send_close() in the middle of a server message."
+META["claim"] += " " + 'Rounds 6-7: extra response headers (extensions); what follows a rejected frame; ambient warnings-as-errors / thread hops / 1-0 spellings.'
 
 import logging as _logging
 
